@@ -30,10 +30,12 @@ pub fn stages_for(property: &str, tier: &str) -> Vec<Stage> {
         "C16" => vec![
             Stage { name: "histories", focus: Focus::Histories, faults: false, runs: 3000 * m, stream: 1 },
             Stage { name: "histories+faults", focus: Focus::Histories, faults: true, runs: 2000 * m, stream: 2 },
+            Stage { name: "fixtures", focus: Focus::Fixtures, faults: false, runs: 500 * m, stream: 8 },
         ],
         "C01" => vec![
             Stage { name: "compile", focus: Focus::Compile, faults: false, runs: 3000 * m, stream: 3 },
             Stage { name: "histories", focus: Focus::Histories, faults: false, runs: 1500 * m, stream: 4 },
+            Stage { name: "fixtures", focus: Focus::Fixtures, faults: false, runs: 500 * m, stream: 9 },
         ],
         "C06" => vec![
             Stage { name: "defaults", focus: Focus::Defaults, faults: false, runs: 4000 * m, stream: 5 },
@@ -41,9 +43,17 @@ pub fn stages_for(property: &str, tier: &str) -> Vec<Stage> {
         "C07" => vec![
             Stage { name: "cycles", focus: Focus::Cycles, faults: false, runs: 4000 * m, stream: 6 },
         ],
-        "C12" => vec![
-            Stage { name: "hashkeys", focus: Focus::Determinism, faults: false, runs: 2500 * m, stream: 7 },
-        ],
+        "C12" => {
+            let mut v = vec![
+                Stage { name: "hashkeys", focus: Focus::Determinism, faults: false, runs: 2500 * m, stream: 7 },
+                Stage { name: "fixtures", focus: Focus::Fixtures, faults: false, runs: 400 * m, stream: 10 },
+            ];
+            if tier == "thorough" {
+                // github.json and vega.json (about 0.5 s per simulated process)
+                v.push(Stage { name: "fixtures-big", focus: Focus::FixturesBig, faults: false, runs: 16, stream: 11 });
+            }
+            v
+        }
         _ => vec![],
     }
 }
@@ -82,6 +92,8 @@ pub fn focus_name(f: Focus) -> &'static str {
         Focus::Defaults => "defaults",
         Focus::Cycles => "cycles",
         Focus::Determinism => "determinism",
+        Focus::Fixtures => "fixtures",
+        Focus::FixturesBig => "fixtures-big",
     }
 }
 
@@ -91,6 +103,8 @@ pub fn focus_of(s: &str) -> Focus {
         "defaults" => Focus::Defaults,
         "cycles" => Focus::Cycles,
         "determinism" => Focus::Determinism,
+        "fixtures" => Focus::Fixtures,
+        "fixtures-big" => Focus::FixturesBig,
         _ => Focus::Histories,
     }
 }
@@ -433,32 +447,38 @@ pub fn check(property: &str, tier: &str, base_seed: u64, workers: usize, runs_ov
     let mut rustc_wall = 0.0f64;
     let mut rustc_observed: BTreeMap<(String, String), String> = BTreeMap::new();
     if (property == "C01" || property == "C07") && runs_override.map(|r| r >= 100).unwrap_or(true) {
-        let n = if tier == "thorough" { 600 } else { 64 };
-        let rstage = Stage {
+        let big = tier == "thorough";
+        let mut rstages = vec![Stage {
             name: "rustc",
             focus: if property == "C07" { Focus::Cycles } else { Focus::Compile },
             faults: false,
-            runs: n,
+            runs: if big { 600 } else { 64 },
             stream: if property == "C07" { 41 } else { 40 },
-        };
-        match rustc_stage(base_seed, &rstage, workers) {
-            Ok((found, n_mod, wall)) => {
-                rustc_modules = n_mod;
-                rustc_wall = wall;
-                stages.push(rstage);
-                let si = stages.len() - 1;
-                for (seed, v) in found {
-                    if report::properties_of(&v).contains(&property) {
-                        rustc_observed.entry((v.invariant.clone(), v.key.clone())).or_insert(v.observed.clone());
-                        let e = groups.entry((v.invariant.clone(), v.key.clone())).or_insert((seed, si, 0));
-                        e.2 += 1;
+        }];
+        if property == "C01" {
+            rstages.push(Stage { name: "rustc-fixtures", focus: Focus::Fixtures, faults: false, runs: if big { 200 } else { 24 }, stream: 42 });
+        }
+        for rstage in rstages {
+            let n = rstage.runs;
+            match rustc_stage(base_seed, &rstage, workers) {
+                Ok((found, n_mod, wall)) => {
+                    rustc_modules += n_mod;
+                    rustc_wall += wall;
+                    stages.push(rstage);
+                    let si = stages.len() - 1;
+                    for (seed, v) in found {
+                        if report::properties_of(&v).contains(&property) {
+                            rustc_observed.entry((v.invariant.clone(), v.key.clone())).or_insert(v.observed.clone());
+                            let e = groups.entry((v.invariant.clone(), v.key.clone())).or_insert((seed, si, 0));
+                            e.2 += 1;
+                        }
                     }
+                    total_runs += n;
                 }
-                total_runs += n;
-            }
-            Err(e) => {
-                eprintln!("HARNESS: rustc stage: {e}");
-                return CheckResult { exit_code: 2 };
+                Err(e) => {
+                    eprintln!("HARNESS: rustc stage: {e}");
+                    return CheckResult { exit_code: 2 };
+                }
             }
         }
     }
